@@ -179,6 +179,17 @@ class HeapState:
     def final_ops(self):
         return []
 
+    def shape(self):
+        """Abstract final state: multiset of handle kinds, sharing-graph shape (how many
+        handles sit on each shared shadow), dimension count and cell-count class."""
+        kinds = "".join(sorted(h.kind for h in self.h.values()))
+        boxes = {}
+        for h in self.h.values():
+            boxes[id(h.box)] = boxes.get(id(h.box), 0) + 1
+        sharing = tuple(sorted(v for v in boxes.values() if v > 1))
+        nd = sorted({(h.box.v.region.ndim if hasattr(h.box.v, "region") and not hasattr(h.box.v, "ndim") else getattr(h.box.v, "ndim", 0)) for h in self.h.values() if h.kind in "RMF"})
+        return f"{kinds}|{sharing}|{nd}"
+
     def close(self):
         if self.fs is not None:
             self.fs.close()
